@@ -1381,7 +1381,7 @@ func manifestUnescape(s string) string {
 	return manifestEscapeSeq.ReplaceAllStringFunc(s, manifestUnescapeFunc)
 }
 
-var manifestEscapedChar = regexp.MustCompile(`[\000-\040:\s\\]`)
+var manifestEscapedChar = regexp.MustCompile(`[\000-\040:\s\\\177]`)
 
 func manifestEscapeFunc(seq string) string {
 	return fmt.Sprintf("\\%03o", byte(seq[0]))
